@@ -1,8 +1,397 @@
-"""Coroutines: atomic segments and the await rule (DESIGN 2.6).  Installed per verification run."""
+"""Coroutines: atomic segments and the await rule (DESIGN 2.6).  Installed per verification run.
+
+asyncio is cooperative: other callbacks / tasks run only while a coroutine is suspended.  At every
+suspension point the rule
+
+  1. asserts the class invariant of `self` (obligation  <qualname>::await.inv.<id>),
+  2. havocs the interference frame: every field the ClassSpec lists under `interference` is replaced
+     by a fresh value of its type; every asyncio.Future reachable on the path may have completed
+     (monotone: a done future keeps its state), every external collaborator's fields are fresh,
+  3. assumes the invariant and the class's rely predicates on the new state,
+  4. continues once per outcome of the awaited thing: its result, each exception its (assumed or
+     proved) contract allows, TimeoutError through an enclosing asyncio.timeout scope, and
+     CancelledError (cancellation of the calling task) at every await.
+
+The guarantee side (no other action of the class writes a field outside `interference`) is an
+obligation checked by `guarantee_obligations` over the contracts and the live class AST.
+"""
 from __future__ import annotations
 
-from .ctx import Unsupported
+import ast
+import asyncio
+
+import z3
+
+from . import values
+from .calls import Coro
+from .ctx import Infeasible, Unsupported
+from .interp import PyRaise, _z, exc_class, mk_exc
+from .values import ExtClass, SFuture, SInt, SObj, SOpt, SReal
+
+
+class ExtAwait:
+    """Awaitable returned by calling an async method of an external collaborator."""
+
+    def __init__(self, method, self_obj, args, kwargs):
+        self.method, self.self_obj, self.args, self.kwargs = method, self_obj, args, kwargs
+
+
+class SleepAwait:
+    def __init__(self, delay):
+        self.delay = delay
+
+
+class ShieldAwait:
+    def __init__(self, inner):
+        self.inner = inner
+
+
+class TaskAwait:
+    """asyncio.Task wrapping a coroutine of the repo (create_task / create_eager_task)."""
+
+    def __init__(self, coro):
+        self.coro = coro
+
+
+class WaitForAwait:
+    def __init__(self, inner, timeout):
+        self.inner, self.timeout = inner, timeout
+
+
+def mk_cancelled(scope=None):
+    e = mk_exc(asyncio.CancelledError)
+    if scope is not None:
+        e.fields["__timeout_scope__"] = scope
+    return e
+
+
+class AwaitCtl:
+    def __init__(self, I, con, self_obj, bindings):
+        self.I, self.con, self.self_obj, self.bindings = I, con, self_obj, bindings
+        self.cancellable = getattr(con, "cancellable", True)
+
+    # ------------------------------------------------------------------
+    def handle(self, I, aw, node):
+        ctx = I.ctx
+        if isinstance(aw, SOpt):
+            aw = I.unwrap_opt(aw, "awaitable")
+        if isinstance(aw, ShieldAwait):
+            # outer cancellation reaches the caller but not the shielded awaitable (assumed contract)
+            ctx.assumptions_used.add("external:asyncio.shield")
+            if self.cancellable and ctx.choose(2, "shield: outer cancel?") == 1:
+                _log(ctx, {"kind": "shield", "outcome": "cancelled"})
+                ctx.emit("shield.outer_cancel", aw.inner)
+                raise PyRaise(mk_cancelled())
+            prev = self.cancellable
+            self.cancellable = False
+            try:
+                return self.handle(I, aw.inner, node)
+            finally:
+                self.cancellable = prev
+        if isinstance(aw, TaskAwait):
+            return self.handle(I, aw.coro, node)
+        if isinstance(aw, WaitForAwait):
+            from .withs import TimeoutCM, _guarded
+
+            cm = TimeoutCM(aw.timeout)
+            cm.enter(I, True)
+            out = []
+            _guarded(I, lambda: out.append(self.handle(I, aw.inner, node)), lambda exc: cm.exit(I, exc, True))
+            return out[0]
+        if isinstance(aw, Coro):
+            return self.await_coro(I, aw)
+        if isinstance(aw, SFuture):
+            return self.await_future(I, aw)
+        if isinstance(aw, ExtAwait):
+            return self.await_ext(I, aw)
+        if isinstance(aw, SleepAwait):
+            self.suspend(I, "sleep")
+            self.maybe_interrupted(I, "sleep")
+            ctx.emit("asyncio.sleep", None, (aw.delay,), {})
+            _log(ctx, {"kind": "sleep", "outcome": "return"})
+            return None
+        raise Unsupported(f"await on {type(aw).__name__}")
+
+    # ------------------------------------------------------------------
+    def suspend(self, I, what):
+        """Steps 1-3 of the await rule."""
+        ctx = I.ctx
+        con = self.con
+        qn = con.qualname
+        so = self.self_obj
+        spec = con.self_spec
+        if spec is not None and so is not None and con.check_inv:
+            for iid, f in spec.invariant_formulas(I, so):
+                ctx.check_obligation(f"{qn}::await.inv.{iid}", f)
+        for cid, lam in getattr(con, "await_asserts", []):
+            from .contracts import eval_clause
+
+            b = dict(self.bindings)
+            b["fx"] = list(ctx.fx)
+            ctx.check_obligation(f"{qn}::await.{cid}", eval_clause(I, lam, _sel(lam, b), old_view=I.entry_old_view))
+        havoc_interference(I, spec, so, self.bindings)
+        if spec is not None and so is not None:
+            spec.assume_invariants(I, so)
+            for rid, lam in getattr(spec, "rely", []) or []:
+                from .contracts import eval_clause
+
+                ctx.assume(_z(eval_clause(I, lam, {"self": so})))
+        from .modular import _observe
+
+        _observe(I, "resume")
+        for cid, lam in getattr(con, "stable_during", []):
+            from .contracts import eval_clause
+
+            b = dict(self.bindings)
+            try:
+                ctx.assume(_z(eval_clause(I, lam, _sel(lam, b), old_view=I.entry_old_view)))
+            except Unsupported:
+                raise
+
+    def maybe_interrupted(self, I, what):
+        """Outcomes that interrupt any suspended await: task cancellation and an enclosing timeout."""
+        ctx = I.ctx
+        n = 1 + (1 if self.cancellable else 0) + (1 if I.timeout_stack else 0)
+        if n == 1:
+            return
+        opts = ["go"]
+        if self.cancellable:
+            opts.append("cancel")
+        if I.timeout_stack:
+            opts.append("timeout")
+        k = ctx.choose(len(opts), f"{what}: interrupted?")
+        if opts[k] == "cancel":
+            _log(ctx, {"kind": what, "outcome": "cancelled"})
+            raise _Interrupt(mk_cancelled())
+        if opts[k] == "timeout":
+            scope = I.timeout_stack[-1]
+            _log(ctx, {"kind": what, "outcome": "timeout"})
+            ctx.emit("timeout.expired", None, (scope.t,), {})
+            raise _Interrupt(mk_cancelled(scope))
+
+    # ------------------------------------------------------------------
+    def await_future(self, I, fut):
+        ctx = I.ctx
+        st0 = z3.simplify(fut.state)
+        already_done = z3.is_int_value(st0) and st0.as_long() != 0
+        if not already_done:
+            self.suspend(I, "future")
+            try:
+                self.maybe_interrupted(I, "future")
+            except _Interrupt as it:
+                # cancelling a task cancels the future it is waiting on (asyncio.Task.cancel)
+                fut.state = z3.simplify(z3.If(fut.state == 0, z3.IntVal(3), fut.state))
+                raise PyRaise(it.exc)
+        # the await returns only once the future is done
+        ctx.assume(fut.state != 0)
+        k = ctx.choose_feasible([fut.state == 1, fut.state == 2, fut.state == 3])
+        if k == 0:
+            _log(ctx, {"kind": "future", "outcome": "result", "name": fut.ghost.get("name")})
+            return fut.result
+        if k == 1:
+            exc = self.future_exception(I, fut)
+            _log(ctx, {"kind": "future", "outcome": "exception:" + exc_class(exc).__name__,
+                                  "name": fut.ghost.get("name")})
+            raise PyRaise(exc)
+        _log(ctx, {"kind": "future", "outcome": "future-cancelled", "name": fut.ghost.get("name")})
+        raise PyRaise(mk_cancelled())
+
+    def future_exception(self, I, fut):
+        exc = fut.exc
+        promise = fut.ghost.get("promise")
+        if exc is not None and not (isinstance(exc, SObj) and exc.tag == "unknown-exception"):
+            return exc
+        if promise is None or not promise.get("excs"):
+            return exc if exc is not None else mk_exc(Exception)
+        makers = promise["excs"]
+        k = I.ctx.choose(len(makers), "which exception")
+        exc = makers[k](I)
+        fut.exc = exc
+        return exc
+
+    # ------------------------------------------------------------------
+    def await_ext(self, I, aw):
+        ctx = I.ctx
+        m = aw.method
+        name = f"{aw.self_obj.cls.__name__}.{m.name}" if aw.self_obj is not None else m.name
+        ctx.assumptions_used.add(f"external:{name}")
+        if getattr(m, "suspends", True):
+            self.suspend(I, name)
+            try:
+                self.maybe_interrupted(I, name)
+            except _Interrupt as it:
+                raise PyRaise(it.exc)
+        raises = getattr(m, "raises", None) or []
+        k = ctx.choose(1 + len(raises), f"{name}: outcome")
+        if k > 0:
+            exc = raises[k - 1](I) if not isinstance(raises[k - 1], type) else mk_exc(raises[k - 1])
+            _log(ctx, {"kind": name, "outcome": "exception:" + exc_class(exc).__name__})
+            ctx.emit(name + "!raise", aw.self_obj, tuple(aw.args), dict(aw.kwargs))
+            raise PyRaise(exc)
+        r = m.apply_now(I, aw.self_obj, aw.args, aw.kwargs)
+        _log(ctx, {"kind": name, "outcome": "return"})
+        return r
+
+    # ------------------------------------------------------------------
+    def await_coro(self, I, coro):
+        reg = I.registry
+        con = reg.contracts.get(coro.qualname) if reg is not None else None
+        if con is not None and not con.inline and coro.qualname != I.current_target and coro.pyfunc is not None:
+            from . import modular
+
+            self.suspend(I, coro.qualname)
+            try:
+                self.maybe_interrupted(I, coro.qualname)
+            except _Interrupt as it:
+                raise PyRaise(it.exc)
+            r = modular.apply_contract(I, con, coro.pyfunc, coro.args, coro.kwargs, coro.bound_self)
+            I._log(ctx, {"kind": coro.qualname, "outcome": "return"})
+            return r
+        # no contract (or inline): the callee's body runs in place; its awaits come back here
+        return coro.runner(I)
+
+
+def _log(ctx, rec):
+    ctx.await_log.append(rec)
+    ctx.emit("await", rec.get("kind"), rec.get("outcome"))
+
+
+class _Interrupt(Exception):
+    def __init__(self, exc):
+        self.exc = exc
+
+
+def _sel(lam, b):
+    code = lam.__code__
+    names = code.co_varnames[: code.co_argcount + code.co_kwonlyargcount]
+    return {n: b[n] for n in names if n in b}
+
+
+# ---------------------------------------------------------------------------
+# havoc
+# ---------------------------------------------------------------------------
+def evolve_future(I, f):
+    """A future may have been completed by someone else while we were suspended; done is final."""
+    ctx = I.ctx
+    old = f.state
+    s0 = z3.simplify(old)
+    if z3.is_int_value(s0) and s0.as_long() != 0:
+        return
+    new = ctx.fresh_int((f.ghost.get("name") or f"fut{f.oid}") + ".state'")
+    ctx.assume(z3.And(new >= 0, new <= 3))
+    ctx.assume(z3.Implies(old != 0, new == old))
+    promise = f.ghost.get("promise")
+    if promise is not None and promise.get("no_cancel"):
+        ctx.assume(z3.Implies(old == 0, new != 3))
+    f.state = new
+    if promise is not None and promise.get("result") is not None:
+        res = promise["result"]
+        newres = res.fresh(I, (f.ghost.get("name") or "fut") + ".result'") if hasattr(res, "fresh") else res
+        if f.result is None or (z3.is_int_value(s0) and s0.as_long() == 0):
+            f.result = newres
+    elif f.result is None:
+        from .values import Opaque, OpaqueSort
+
+        f.result = Opaque(ctx.fresh_const("fut.result", OpaqueSort), "result")
+    if f.exc is None:
+        f.exc = SObj(Exception, {"args": ()}, tag="unknown-exception")
+
+
+def havoc_interference(I, spec, so, bindings):
+    ctx = I.ctx
+    seen = set()
+    if spec is not None and so is not None:
+        itf = spec.interference
+        if itf is None:
+            itf = list(spec.fields)
+        for fld in itf:
+            ty = spec.fields.get(fld)
+            if ty is None:
+                raise Unsupported(f"interference names unknown field {fld}")
+            cur = so.fields.get(fld)
+            new = ty.fresh(I, f"self.{fld}~")
+            if type(cur).__name__ in ("SMap", "SColl") and type(new) is type(cur):
+                oid = cur.oid
+                for attr, val in vars(new).items():
+                    setattr(cur, attr, val)
+                cur.oid = oid
+            else:
+                so.fields[fld] = new
+    # futures and external collaborators everywhere on the path
+    for f in list(values.LIVE_FUTURES):
+        evolve_future(I, f)
+    for o in list(values.LIVE_EXT):
+        if isinstance(o.cls, ExtClass):
+            for k, ty in o.cls.field_types.items():
+                if k in getattr(o.cls, "stable_fields", ()):
+                    continue
+                o.fields[k] = ty.fresh(I, f"{o.tag or o.cls.__name__}.{k}~")
 
 
 def install(I, con, self_obj, bindings):
-    I.await_handler = None
+    ctl = AwaitCtl(I, con, self_obj, bindings)
+    I.await_ctl = ctl
+    I.await_handler = ctl.handle
+
+
+# ---------------------------------------------------------------------------
+# guarantee side: nobody else writes the fields a suspended coroutine relies on
+# ---------------------------------------------------------------------------
+def class_writers(cls_qualname):
+    """{method name: set of self fields syntactically assigned or mutated in place} from the live
+    source of the class (all methods, with or without a contract)."""
+    from . import source
+    from .looprule import assigned_in
+
+    node, modname, _h = source.find_function(cls_qualname)
+    out = {}
+    for item in node.body:
+        if isinstance(item, (ast.FunctionDef, ast.AsyncFunctionDef)):
+            _names, fields, calls = assigned_in(item.body)
+            out[item.name] = (fields, calls)
+    return out
+
+
+def guarantee_obligations(spec, registry, owners=()):
+    """One obligation per method of the class: the fields it may write (its proved frame if it has a
+    contract, the syntactic write set of its body otherwise, closed under calls to other methods of the
+    class) lie inside the interference set.  `owners`: methods that hold the exclusive permission
+    (e.g. the semaphore holder) and are therefore exempt."""
+    itf = set(spec.interference if spec.interference is not None else spec.fields)
+    writers = class_writers(spec.qualname)
+    frames = {}
+    for name, (fields, calls) in writers.items():
+        con = registry.contracts.get(f"{spec.qualname}.{name}")
+        if con is not None and con.modifies_ is not None:
+            frames[name] = {p.split(".", 1)[1] for p in con.modifies_ if p.startswith("self.") and not p.endswith(".*")}
+            frames[name] = (frames[name], True)
+        else:
+            frames[name] = (set(fields), False)
+    # close the syntactic write sets under self-calls
+    changed = True
+    while changed:
+        changed = False
+        for name, (fields, calls) in writers.items():
+            fr, proved = frames[name]
+            if proved:
+                continue
+            for c in calls:
+                if c in frames and not frames[c][0] <= fr:
+                    fr |= frames[c][0]
+                    changed = True
+    out = []
+    for name in sorted(writers):
+        if name in owners or name == "__init__":
+            continue
+        fr, proved = frames[name]
+        bad = sorted(f for f in fr if f not in itf and f in spec.fields)
+        out.append({
+            "name": f"{spec.qualname}.{name}::guarantee.writes_only_interference_fields",
+            "verdict": "proved" if not bad else "refuted",
+            "backend": "frame" if proved else "syntactic-write-set",
+            "t": 0.0,
+            "detail": (f"writes {sorted(fr)}; " + ("frame proved by the method's own contract" if proved else
+                       "no contract: write set computed from the live AST")) + (f"; OUTSIDE interference: {bad}" if bad else ""),
+            "witness": None,
+        })
+    return out
